@@ -1,7 +1,7 @@
 (* Layout models of the EAM writers: setfl (eam/alloy), setfl Finnis-Sinclair (eam/fs), ADP, funcfl
    (_lammpsWriteEAM.py, eam_tabulation.py), DL_POLY TABEAM / EEAM (_dlpoly_writeTABEAM.py) and the Excel
    EAM workbooks.  Sample positions and steps are the REGENERATED formulas of gen/GridArith.v. *)
-From V Require Import lib.Common lib.Layout gen.GridArith model.PairTables.
+From V Require Import lib.Common lib.Layout lib.Sorting gen.GridArith model.PairTables.
 Local Open Scope Q_scope.
 
 Record element := { el_sp : Z;      (* species id *)
@@ -113,10 +113,18 @@ Definition tab_fn (fn : fnid) (n : Z) (step : Q) : list item :=
   tab_values (fun i => IVal F_f [mkev fn KCall (tabeam_sample i step)] (fun _ => SPlain)) n.
 Definition tab_zero (n : Z) : list item := tab_values (fun _ => IQ F_f 0) n.
 
-(* all unordered element pairs, sorted: a set of sorted tuples, iterated in sorted order *)
-Definition all_pair_keys (els : list element) : list (Z * Z) :=
-  fold_left (fun acc k => insert_key k acc)
-            (flat_map (fun a => map (fun b => if (el_sp a <=? el_sp b)%Z then (el_sp a, el_sp b) else (el_sp b, el_sp a)) els) els) [].
+(* sorted([ep.species for ep in eampots]) *)
+Definition sorted_species (els : list element) : list Z := sort Z.leb (map el_sp els).
+
+(* all unordered element pairs in sorted order: the code collects tuple(sorted([i.species, j.species])) for all
+   i, j in a set and iterates sorted(set).  For distinct elements that is (s_i, s_j), i <= j, over the sorted
+   species s_0 < s_1 < ..., in lexicographic order. *)
+Fixpoint tri_keys (ss : list Z) : list (Z * Z) :=
+  match ss with
+  | [] => []
+  | s :: rest => map (fun t => (s, t)) (s :: rest) ++ tri_keys rest
+  end.
+Definition all_pair_keys (els : list element) : list (Z * Z) := tri_keys (sorted_species els).
 
 Definition tabeam_pairs (els : list element) (pairs : list pot) (nr : Z) (dr : Q) : list item :=
   flat_map (fun k =>
@@ -131,10 +139,6 @@ Definition tabeam_pairs (els : list element) (pairs : list pot) (nr : Z) (dr : Q
 Definition tabeam_embed (nrho : Z) (drho : Q) (ie : nat * element) : list item :=
   [ILit L_embe; IStr F_s (el_sp (snd ie)); sp; IInt F_d nrho; ILit L_zero_sp; IQ F_f (tabeam_end nrho drho); nl]
   ++ tab_fn (FEmbed (fst ie)) nrho drho.
-
-(* sorted([ep.species for ep in eampots]) (elements are distinct) *)
-Definition sorted_species (els : list element) : list Z :=
-  map fst (fold_left (fun acc e => insert_key (el_sp e, 0%Z) acc) els []).
 
 Definition tabeam_file (fs : bool) (els : list element) (pairs : list pot) (nrho : Z) (drho : Q) (nr : Z) (dr : Q) : list item :=
   let n := Z.of_nat (length els) in
